@@ -104,6 +104,8 @@ pub enum Kind {
 }
 #[derive(Clone, Debug, Serialize, Deserialize)]
 pub enum Step {
+    /// the clock (inserted by the core's clock faults): nothing but time passes
+    Wait { n: u32 },
     Increment,
     EmergencyReset,
     Pause { caller: usize, signed: bool },
@@ -151,10 +153,11 @@ impl Model {
         let k = cfg.kind;
         let gated = k == Kind::PausableExample && self.paused;
         let pausable = matches!(k, Kind::PausableExample | Kind::PausableCounter);
-        if k == Kind::PausableCounter && !matches!(s, Step::Pause { .. } | Step::Unpause { .. } | Step::Increment | Step::EmergencyReset) {
+        if k == Kind::PausableCounter && !matches!(s, Step::Pause { .. } | Step::Unpause { .. } | Step::Increment | Step::EmergencyReset | Step::Wait { .. }) {
             return false; // the counter example has no token entry points
         }
         match *s {
+            Step::Wait { .. } => true,
             Step::Increment => {
                 if k != Kind::PausableCounter || self.paused {
                     return false;
@@ -281,6 +284,12 @@ impl Check for Gates {
     fn components(&self) -> serde_json::Value {
         serde_json::json!({"real": ["examples/fungible-{pausable,allowlist,blocklist,capped} and examples/pausable (from source)", "AllowList / BlockList wrappers wiring every library override", "pausable storage + when_not_paused macro", "capped::check_cap"], "stub": ["Wallet"]})
     }
+    fn clock_step(&self, n: u32) -> Option<Step> {
+        Some(Step::Wait { n })
+    }
+    fn clock_budget(&self) -> u64 {
+        6000000
+    }
     fn dup_ok(&self, _s: &Step) -> bool {
         true
     }
@@ -366,7 +375,6 @@ impl Check for Gates {
         if cfg.kind == Kind::AllowExample {
             m.listed.insert(0);
         }
-        let live = w.now() + 1_000_000;
         let call = |f: &'static str, args: Vec<Val>, signer: Option<usize>| -> bool {
             match signer {
                 Some(x) => w.set_auth(&[(x, Inv::new(&id, f, args.clone()))]),
@@ -379,6 +387,12 @@ impl Check for Gates {
             let before = w.storage_digest(&[&id]);
             let mut returned: Option<i32> = None;
             let (kind, got) = match s {
+                Step::Wait { n } => {
+                    w.advance(*n);
+                    st.ledgers += *n as u64;
+                    st.hit("clock.advance");
+                    ("wait", true)
+                }
                 Step::Increment => {
                     w.set_auth(&[]);
                     let r = e.try_invoke_contract::<i32, soroban_sdk::Error>(&id, &Symbol::new(e, "increment"), ().into_val(e));
@@ -400,13 +414,15 @@ impl Check for Gates {
                 Step::Mint { to, amt } => ("mint", call("mint", (a(*to), *amt).into_val(e), Some(0))),
                 Step::Transfer { from, to, amt } => ("transfer", call("transfer", (a(*from), a(*to), *amt).into_val(e), Some(*from))),
                 Step::TransferFrom { spender, from, to, amt } => ("transfer_from", call("transfer_from", (a(*spender), a(*from), a(*to), *amt).into_val(e), Some(*spender))),
-                Step::Approve { owner, spender, amt } => ("approve", call("approve", (a(*owner), a(*spender), *amt, live).into_val(e), Some(*owner))),
+                Step::Approve { owner, spender, amt } => ("approve", call("approve", (a(*owner), a(*spender), *amt, e.ledger().max_live_until_ledger()).into_val(e), Some(*owner))),
                 Step::Burn { from, amt } => ("burn", call("burn", (a(*from), *amt).into_val(e), Some(*from))),
                 Step::BurnFrom { spender, from, amt } => ("burn_from", call("burn_from", (a(*spender), a(*from), *amt).into_val(e), Some(*spender))),
             };
             let snapshot = m.clone();
             let exp = m.apply(cfg, s);
-            st.tx(kind, got);
+            if kind != "wait" {
+                st.tx(kind, got);
+            }
             if got != exp {
                 let party = |x: usize| if snapshot.vet(cfg.kind, x) { "ok" } else { "not-vetted" };
                 let disc = match s {
